@@ -46,6 +46,8 @@ def parseWants : SExp → Option Wants
 def parseClass : SExp → Option Class
   | .list [cts, c, m, .atom e, inb] => do
       pure { cts := ← parseCts cts, cpu := ← c.nat?, mem := ← m.nat?, portsExpr := e.toList, inbound := ← parseInb inb }
+  | .list [cts, c, m, .atom e, inb, .atom cmd] => do
+      pure { cts := ← parseCts cts, cpu := ← c.nat?, mem := ← m.nat?, portsExpr := e.toList, inbound := ← parseInb inb, cmd := cmd }
   | _ => none
 
 /-- Satisfy / RangesFromExpression as probed by the harness; the resource
@@ -285,6 +287,86 @@ def doRound (m : Mode) (w : SExp → String) (cls root offers descs : SExp) (imp
     | none => bad
   | _, _, _ => bad
 
+/-! ### histories: loads and rounds on one manager -/
+
+def parseLoads (s : SExp) : Option (List (Key × Class)) := do
+  (← s.list?).mapM? fun
+    | .list [k, c] => do pure (← k.nat?, ← parseClass c)
+    | _ => none
+
+def parseDescRefs (root : Constraints) (s : SExp) : Option (List DescRef) := do
+  let xs ← s.list?
+  let ds ← xs.mapM? fun
+    | .list [lv, ci] => do
+        let chain ← (← lv.list?).mapM? parseCts
+        let key : Option Key ← match ci with
+          | .atom "-" => some none
+          | c => do pure (some (← c.nat?))
+        pure (effective (chain ++ [root]), key)
+    | _ => none
+  pure ((List.range ds.length).zip ds |>.map fun (i, (r, k)) => { id := i, role := r, key := k })
+
+/-- A step without its lock order (an environment choice the driver infers per round). -/
+def parseStep : SExp → Option Step
+  | .list [loads, root, offers, descs] => do
+      let rootC ← parseCts root
+      let os ← parseOffers offers
+      pure { loads := ← parseLoads loads, offers := os, descs := ← parseDescRefs rootC descs, order := os }
+  | _ => none
+
+/-- The model: the store is carried from step to step by `storeLoad` (the code's
+    store: `codeCfg` overwrites); per round the lock order that reproduces the
+    observation is chosen among all orders. The spec: every round of what the
+    IMPLEMENTATION did, judged against the templates AS LAST LOADED (`resolvedDescs`,
+    which does not know the store). -/
+def doHist (m : Mode) (w : SExp → String) (stepsSx : List SExp) (impl : SExp) : Ans :=
+  match stepsSx.mapM? parseStep with
+  | none => bad
+  | some steps =>
+    let implRounds : List SExp := match impl with
+      | .list (.atom "hist" :: rs) => rs
+      | _ => []
+    -- model, round by round
+    let rec go (s : Store) (sts : List Step) (obs : List SExp) : List SExp :=
+      match sts with
+      | [] => []
+      | st :: rest =>
+        let s' := storeLoad m s st.loads
+        let ds := st.descs.map (resolveBy (storeGet s'))
+        let cands := (perms st.offers).map fun order => outcomeSx (round m st.offers ds order)
+        let want := obs.head?
+        let pick := match want with
+          | some o => if cands.contains o then o else cands.headD (.atom "NONE")
+          | none => cands.headD (.atom "NONE")
+        pick :: go s' rest obs.tail
+    let rounds := go [] steps implRounds
+    let model : SExp :=
+      if rounds.any (· == .list [.atom "crash"]) then .list [.atom "crash"] else .list (.atom "hist" :: rounds)
+    -- spec on the implementation's observation
+    if impl == .list [.atom "crash"] then { model := w model, spec := false } else
+    let resolved := resolvedDescs [] steps
+    if implRounds.length != steps.length then { model := w model, spec := false } else
+    let outs : Option (List Outcome) := ((resolved.zip implRounds).mapM? fun (ds, o) => implOutcome m ds o)
+    match outs with
+    | none => { model := w model, spec := false }
+    | some outs =>
+      let spec := histVerdict steps outs
+      -- the first round that fails names the excluded class, as `round` does
+      let hyp :=
+        if spec then "-" else
+        match ((steps.zip outs).find? fun (st, out) => !(roundVerdict st.offers out).all) with
+        | none => "-"
+        | some (st, out) =>
+          let v := roundVerdict st.offers out
+          let launchedDiffer := out.accepts.any fun a => a.launches.any fun l => match l.desc.cls with
+            | some c => classDiffers c
+            | none => false
+          if !v.noCrash then "-"
+          else if !v.constraintsOk then (if m.satFixed then "-" else "satisfy_last_constraint_decides")
+          else if !v.templateOk then (if !m.rngFixed && launchedDiffer then "range_end_from_start" else "-")
+          else "-"
+      { model := w model, spec, hyp }
+
 def processLine (line : String) : String :=
   let ans : Ans :=
     match SExp.fields line with
@@ -301,6 +383,7 @@ def processLine (line : String) : String :=
         | "parse", [.atom e] => doParse m w e payload
         | "mk", [p, c] => doMk m w p c payload
         | "round", [cls, root, os, ds] => doRound m w cls root os ds payload
+        | "hist", steps => doHist m w steps payload
         | _, _ => bad
       | _, _ => bad
     | _ => { model := "BADLINE", spec := false }
